@@ -144,6 +144,7 @@ func cmdFunc(args []string) int {
 			}
 			t0 := time.Now()
 			fc := u.verifyFunction(fn, c)
+			fc.obs = dropCovers(fc.obs)
 			gen := time.Since(t0)
 			if os.Getenv("FVC_GENONLY") != "" {
 				total := 0
@@ -213,6 +214,7 @@ func cmdAll(args []string) int {
 	var fcs []*FuncCtx
 	for _, p := range u.contractedFunctions() {
 		fc := u.verifyFunction(p.fn, u.resolveLike(p.c))
+		fc.obs = dropCovers(fc.obs)
 		fcs = append(fcs, fc)
 		all = append(all, fc.obs...)
 	}
@@ -302,4 +304,15 @@ func cmdList(args []string) int {
 		fmt.Printf("%s %-70s blocks=%d loops=%d synthetic=%q\n", mark, n, len(fn.Blocks), len(u.loopsOf(fn)), fn.Synthetic)
 	}
 	return 0
+}
+
+// dropCovers removes the vacuity-guard obligations (used by the thorough tier only).
+func dropCovers(obs []*Obligation) []*Obligation {
+	var out []*Obligation
+	for _, ob := range obs {
+		if ob.Kind != "cover" {
+			out = append(out, ob)
+		}
+	}
+	return out
 }
